@@ -278,7 +278,11 @@ func goTargetsIn(fn *ssa.Function) []*goTarget {
 func symbolicArgs(fn *ssa.Function) []*Term {
 	args := make([]*Term, len(fn.Params))
 	for i, prm := range fn.Params {
-		args[i] = &Term{Op: "param", Name: prm.Name(), Typ: prm.Type()}
+		name := prm.Name()
+		if i == 0 && fn.Signature.Recv() != nil {
+			name = "u" // the receiver, whatever it is called in the source
+		}
+		args[i] = &Term{Op: "param", Name: name, Typ: prm.Type()}
 	}
 	return args
 }
